@@ -1,17 +1,17 @@
 #!/bin/bash
-# validate_round5.sh <agentdir e.g. A1>: every mutant of a cross-property sub-agent (/tmp/wt5/<A>/mutants/<n>; property = first line of
+# validate_round5.sh <agentdir e.g. A1>: every mutant of a cross-property sub-agent (${WT:-/tmp/wt5}/<A>/mutants/<n>; property = first line of
 # its README "PROPERTY: Cnn"): tests pass, demo fails with / passes without, then the property's quick check; stored as next free seeded/<P>-<k>.
-A=$1; shift; W=/tmp/wt5/$A
+A=$1; shift; W=${WT:-/tmp/wt5}/$A
 for M in $W/mutants/*/; do
   n=$(basename $M); [ -f $M/patch.diff ] || continue
   P=$(head -1 $M/README.md | sed -n 's/^PROPERTY: *\(C[0-9]*\).*/\1/p')
   [ -n "$P" ] || { echo "no PROPERTY line in $M/README.md"; continue; }
   k=1; while [ -d /verif/seeded/$P-$k ]; do k=$((k+1)); done
-  rm -rf /tmp/wt5s; mkdir -p /tmp/wt5s; ln -sfn $W /tmp/wt5s/$P
-  WTROOT=/tmp/wt5s OFF=$((k-n)) /verif/tools/validate_seeded.sh $P $n "$@"
+  rm -rf /tmp/wtXs; mkdir -p /tmp/wtXs; ln -sfn $W /tmp/wtXs/$P
+  WTROOT=/tmp/wtXs OFF=$((k-n)) /verif/tools/validate_seeded.sh $P $n "$@"
   python3 - /verif/seeded/$P-$k $A <<'PY'
 import json,sys
-p=sys.argv[1]+'/meta.json'; m=json.load(open(p)); m['origin']='independent sub-agent, round 5 (all ten claimed statements, angle '+sys.argv[2]+', list of 110 earlier changes to avoid)'; json.dump(m,open(p,'w'),indent=1)
+p=sys.argv[1]+'/meta.json'; m=json.load(open(p)); m['origin']='independent sub-agent, round 5/6 (all ten claimed statements, angle '+sys.argv[2]+', list of 110 earlier changes to avoid)'; json.dump(m,open(p,'w'),indent=1)
 PY
 done
-rm -rf /tmp/wt5s
+rm -rf /tmp/wtXs
